@@ -294,6 +294,15 @@ def gen_malformed(rng, i, p_wellformed=0.1, allow_random=True):
                 return inp, data, recs, "beyond-enclosing"
     r = rng.random()
     if rng.random() < 0.06:
+        f = F.fault_nested_pair(data, o, rng)
+        if f:
+            d2 = f[0]
+            if inp["root"] != model.STREAM or rng.random() < 0.3:
+                fa = F.fault_append(d2, o, rng)
+                if fa:
+                    return inp, fa[0], f[1] + [fa[1]], "nested-pair"
+            return inp, d2, f[1], "nested-pair"
+    if rng.random() < 0.06:
         f = F.fault_straddle(data, o, rng)
         if f:
             d2 = f[0]
